@@ -26,6 +26,52 @@ add("C17", "Hypothesis-generated (x, t) sweep + exhaustive +-64-ulp walks at eve
     "Exploration: dense generated sweep of [-40,40] x [1e-8,1e-2] with exactly the statement's bounds as oracle; ulp-neighbourhoods of each threshold enumerated exhaustively inside a case.",
     "mpmath at 50 digits taken as exact; a sweep, not an interval proof.")
 
+add("C02", "Hypothesis-generated games with all-distinct named players; per-slot identity + mpmath posterior of that very player + pre-sorted differential",
+    "Exploration: each generated call is checked for shape, id/name per slot, duplicates, per-slot value against the independent reference, bit-identical agreement with the pre-sorted presentation and all-or-nothing mutation of the passed-in objects.",
+    "Per-slot values of TM games with a pair beyond 5 sigma are left to C01 (excluded, counted).")
+add("C04", "Hypothesis metamorphic test with exhaustive n! team permutations (n<=5) and drawn player permutations, compared within a stated numerical budget",
+    "Exploration over generated games; inside each case the permutation group is enumerated exhaustively for n<=5 (24 drawn permutations above); oracle = per-player agreement within the float budget of DESIGN.md 4.4.",
+    "Budget constants calibrated on the repaired tree (observed maxima reported in evidence); TM branch-boundary cases excluded (counted); partial pairing restricted to tie-order-preserving permutations as the statement says.")
+add("C05", "Hypothesis metamorphic/sign-invariant tests over one game rated under several outcomes (win/draw/loss, place exchange, identical teams)",
+    "Exploration: four clauses (first/last place and proportionality; win/draw/loss ordering; exchange with a better-placed team; identical teams ordered by place) with only a rounding floor as tolerance; half of the cases are constructed 5-9 sigma mismatches.",
+    "'Identical teams' reading as in DESIGN.md C05; strictness asserted only where the expected gap exceeds 1000x the rounding floor.")
+add("C06", "Hypothesis single-call invariants + RuleBasedStateMachine league histories (ratings fed back) + 2000-game long runs",
+    "Exploration of inputs, configurations and histories: invariant sigma finite, >0, <= sqrt(prior^2+tau^2), <= prior under limit_sigma after every call and along every generated league history.",
+    "Players leaving the valid input domain are retired from a history; history gammas bounded by 1.")
+add("C07", "Hypothesis invariant test: precision-weighted sum of mu changes vs a tolerance relative to the summands' magnitude",
+    "Exploration over generated games (3/8 dyadic so sums are exact): the balance identity is evaluated on every output with tolerance 1e-9 of the cancelling terms plus the stated TM draw-margin term.",
+    "Tolerance relative to summand magnitude (the net change is mathematically zero).")
+add("C08", "Hypothesis corner-heavy generation over the widest stated domain + atheris coverage-guided fuzz target (thorough) with the same oracle",
+    "Exploration: no exception and all numbers finite for rate and the three predicts on 2..8 teams x 1..16 players, sigma down to 0 (with tau), kappa down to 1e-12, scale 1e-3..1e3.",
+    "sigma=0 only with effective tau >= 1e-6 beta.")
+add("C09", "Hypothesis invariant + metamorphic tests (permutation, identical teams, single-member mu increment) on predict_win",
+    "Exploration over generated team lists incl. identical and 1-ulp-apart teams; oracle = range, sum, symmetry, exact one-half, monotonicity with an 8-ulp floor.",
+    "'Identical teams' = equal member lists in the same order.")
+add("C10", "Hypothesis invariant + metamorphic tests (permutation, gap widening, equalisation) on predict_draw",
+    "Exploration over generated team lists, with 1v1 small-sigma games (where the two-team form touches 1) and large teams stressed.",
+    "1e-12 range slack; equalised games that leave the mu range are excluded (counted).")
+add("C11", "Hypothesis invariant tests on predict_rank output (exact float comparisons) + sum-to-one with predict_draw",
+    "Exploration over generated team lists with planted exact copies (probability ties) in adjacent/non-adjacent positions.",
+    "none beyond finite inputs in the valid range.")
+add("C12", "Hypothesis-generated teams vs independent 50-digit mpmath evaluation of the stated closed forms (differential oracle)",
+    "Exploration: every number of the three predict operations compared to 1e-9 absolute with the closed forms written from the statement.",
+    "predict_rank uses n*beta^2 also for n=2; mpmath erfinv as inverse CDF.")
+add("C13", "Exhaustive fault enumeration (all sites x fault kinds of a malformed-argument grammar) inside Hypothesis-generated valid calls; atheris target (thorough)",
+    "Fault enumeration: for every generated valid call all faults of the grammar are injected one at a time for rate and the three predicts; oracle = exact exception type and unchanged snapshots of all reachable ratings and of the model.",
+    "Falsy ranks/scores are 'not given'; Decimal/Fraction/NaN/inf not generated.")
+add("C16", "Hypothesis metamorphic tests: rescaled and shifted copies of one game compared within the numerical budget; predictions within 1e-12",
+    "Exploration over generated games x factors (2^k exact, 10^u) x shifts.",
+    "Gamma family scale/shift invariant by construction; branch-boundary and out-of-range shifted cases excluded (counted).")
+add("C18", "Hypothesis-generated rating pairs (constructed equal ordinals) + exhaustive operator x operand-kind x side grid",
+    "Exploration of value pairs with exact oracles (is-identity of booleans), plus exhaustive enumeration of the foreign-operand grid inside each case.",
+    "Finite mu/sigma only.")
+add("C19", "Differential testing across the five model classes (predictions, C13 verdicts, rating-object behaviour, BT-part vs BT-full) + exhaustive signature comparison",
+    "Exploration of generated inputs pushed through all five copies and compared bit for bit; the public surface comparison is exhaustive.",
+    "Class-specific names normalised before comparing signatures/reprs.")
+add("C20", "Hypothesis construction/copy tests + RuleBasedStateMachine twin leagues (one restored from stored values between games)",
+    "Exploration of constructions, copies, single-call restores and league histories with drawn restore points and methods; all comparisons bitwise.",
+    "create_rating not exercised with the empty name.")
+
 ALL = [f"C{n:02d}" for n in range(1, 21)]
 props = {json.loads(l)["id"]: json.loads(l) for l in open(os.path.join(HERE, "properties.jsonl"))}
 NA_REASON = {}
@@ -58,7 +104,7 @@ for pid in ALL:
             "evidence_file": f"evidence/{pid}.json",
             "replay_cmd_template": f"./check {pid} --replay {{path}}",
             "engine": "vf",
-            "level_claimed": {"category": "exploration", "text": text, "design_ref": ref},
+            "level_claimed": {"category": "fault_enumeration" if pid == "C13" else "exploration", "text": text, "design_ref": ref},
             "level_note": note,
             "technique": tech,
         })
